@@ -28,7 +28,7 @@ static const uint8_t *IN; static size_t INLEN; static const char *LABEL; static 
 static void describe(vf_str *o)
 {
     vf_str_printf(o, "phase: %s\noverload: %d\ninput_len: %zu\ninput_hex: ", PHASE == 0 ? "bytes" : "tree", OVERLOAD, INLEN);
-    if (INLEN <= 3000) vf_str_hex(o, IN, INLEN); else vf_str_printf(o, "(long)");
+    if (INLEN <= 300000) vf_str_hex(o, IN, INLEN); else vf_str_printf(o, "(long)");
     vf_str_printf(o, "\nlabel: %s\n", LABEL ? LABEL : "");
 }
 static char why[300], sigk[100];
@@ -312,6 +312,48 @@ static void big_docs(void)
         check_tree(&d, variant == 0 ? "big: 1200-byte string + 2500 bytes" : variant == 1 ? "big: array of 250 int32" : "big: 10 nested objects with a 999-byte string");
         check_bytes(d.bytes, d.len, "big document bytes");
     }
+    /* payloads and keys with 2- and 4-byte length prefixes */
+    static char huge[70000];
+    for (size_t i = 0; i < sizeof huge; i++) huge[i] = (char) ('A' + i % 53);
+    static const size_t lens[] = { 127, 128, 32767, 32768, 65535, 65536, 66000 };
+    for (size_t li = 0; li < sizeof lens / sizeof lens[0]; li++) {
+        if (!take()) continue;
+        vf_b_reset(&d);
+        vf_b_open(&d, VK_OBJ);
+        vf_b_name(&d, huge, lens[li] < 40000 ? lens[li] : 300); vf_b_blob(&d, VK_STR, huge + 1, lens[li]);
+        vf_b_name(&d, "z", 1); vf_b_open(&d, VK_ARR); vf_b_blob(&d, VK_BYT, huge + 2, lens[li]); vf_b_int(&d, -1); vf_b_close(&d);
+        vf_b_close(&d);
+        char lab[80];
+        snprintf(lab, sizeof lab, "big: key/string/bytes of %zu bytes", lens[li]);
+        check_tree(&d, lab);
+        check_bytes(d.bytes, d.len, lab);
+    }
+    /* nesting around the wrapper's depth limit of 10: 11 and 12 nested objects must throw, 9 and 10 must round-trip */
+    for (int k = 8; k <= 12; k++) {
+        if (!take()) continue;
+        vf_b_reset(&d);
+        vf_b_open(&d, VK_OBJ);
+        for (int i = 1; i < k; i++) { vf_b_name(&d, "n", 1); vf_b_open(&d, VK_OBJ); }
+        vf_b_name(&d, "x", 1); vf_b_int(&d, k);
+        for (int i = 1; i < k; i++) { vf_b_close(&d); }
+        vf_b_close(&d);
+        char lab[80];
+        snprintf(lab, sizeof lab, "depth: %d nested objects", k);
+        check_bytes(d.bytes, d.len, lab);
+        /* and arrays inside: [[[...]]] 300 deep is beyond the array limit of 255 */
+    }
+    for (int k = 254; k <= 256; k++) {
+        if (!take()) continue;
+        vf_b_reset(&d);
+        vf_b_open(&d, VK_OBJ); vf_b_name(&d, "a", 1);
+        for (int i = 0; i < k; i++) vf_b_open(&d, VK_ARR);
+        vf_b_int(&d, 1);
+        for (int i = 0; i < k; i++) vf_b_close(&d);
+        vf_b_close(&d);
+        char lab[80];
+        snprintf(lab, sizeof lab, "depth: %d nested arrays in a field", k);
+        check_bytes(d.bytes, d.len, lab);
+    }
 }
 
 static int L_TOK, N_BYTES, N_TREE;
@@ -367,7 +409,7 @@ static void replay_main(void)
     char *t = vf_replay_load(vf_g.replay);
     char *hex = vf_replay_get(t, "input_hex"), *phase = vf_replay_get(t, "phase");
     if (!hex || !phase) vf_die("replay file lacks phase/input_hex");
-    static uint8_t bytes[8192];
+    static uint8_t bytes[300000];
     static vf_doc R;
     long n = vf_unhex(bytes, sizeof bytes, hex);
     if (n < 0) vf_die("bad input_hex");
